@@ -43,6 +43,7 @@ pub static SPEC: Spec = Spec {
         "repeated_reads_with_events_kept_alive",
         "ev:create_proof-served-or-failed:[]",
         "ev:get-after-failed-append:[G]",
+        "ev:proof-accepted-by-writable-core",
         "ev:shared:append:[U,H]",
         "ev:shared:get-missing:[G]",
         "ev:shared:proof-accepted",
@@ -718,6 +719,49 @@ fn shared_history(ctx: &mut Ctx, r: &mut Rng, script: &mut Vec<Value>) -> Result
     Ok(())
 }
 
+/// A *writable* core that accepts a proof announces it like any other core: the writer clears a
+/// block it had appended and gets it back from a replica that fetched it earlier.
+fn writer_refetch(ctx: &mut Ctx, r: &mut Rng) -> Result<(), Fail> {
+    let mut w = Sut::create(r.next_u64(), World::new(), CacheMode::None)?;
+    let n = 2 + r.below(9) as u32;
+    repl::apply_writer_ops(&mut w, &(0..n).map(|i| Op::Append(i + 1, 2 + i % 5)).collect::<Vec<_>>())?;
+    let mut rep = Replica::create(&w.key, CacheMode::None)?;
+    let k = r.below(n as u64);
+    repl::round(&mut w, &mut rep, &Plan { upgrade: Some(n as u64), block: Some(k), ..Default::default() }).map_err(|f| fail(format!("scenario:{}", f.sig), f.detail))?;
+    repl::apply_writer_ops(&mut w, &[Op::Clear(k, k + 1)])?;
+    let mut mon = Mon { subs: vec![] };
+    for _ in 0..(1 + r.below(2)) {
+        mon.attach(w.core());
+    }
+    // the read of the cleared block on the writer: one get event
+    match exec::call(w.core().get(k)) {
+        Ok(Ok(None)) => {}
+        other => return Err(fail("scenario:get", format!("{:?}", other.map(|x| x.map(|y| y.map(|z| z.len())).map_err(|e| e.to_string()))))),
+    }
+    mon.after("get-cleared", &Expect::Exactly(vec![Ev::Get(k)]), &[])?;
+    let nodes = match exec::call(w.core().missing_nodes(k)) {
+        Ok(Ok(x)) => x,
+        other => return Err(fail("scenario:missing_nodes", format!("{:?}", other.map(|x| x.map_err(|e| e.to_string()))))),
+    };
+    let req = repl::Request { block: Some(hypercore::RequestBlock { index: k, nodes }), hash: None, seek: None, upgrade: None };
+    let proof = match create_proof(rep.core(), &req) {
+        Ok(Ok(Some(p))) => p,
+        other => return Err(fail("scenario:create_proof", format!("{:?}", other.map(|x| x.map(|p| p.is_some()).map_err(|e| e.to_string()))))),
+    };
+    match apply_proof(w.core(), &proof) {
+        Ok(Ok(true)) => {}
+        other => return Err(fail("scenario:verify", format!("{:?}", other.map(|x| x.map_err(|e| e.to_string()))))),
+    }
+    ctx.count("ev:proof-accepted-by-writable-core");
+    mon.after("proof-accepted-by-writable-core", &Expect::Exactly(vec![Ev::Have(k, 1, false)]), &[k])?;
+    match exec::call(w.core().get(k)) {
+        Ok(Ok(Some(_))) => {}
+        other => return Err(fail("scenario:get-after-refetch", format!("{:?}", other.map(|x| x.map(|y| y.map(|z| z.len())).map_err(|e| e.to_string()))))),
+    }
+    mon.after("get-held", &Expect::Exactly(vec![]), &[])?;
+    mon.union_check(ctx)
+}
+
 fn report_hist(ctx: &mut Ctx, i: usize, f: Fail, ops: &[Op], kind: &str) {
     if f.sig.starts_with("scenario:") || f.sig.starts_with("build:") {
         ctx.count("scenario_unusable");
@@ -748,8 +792,19 @@ fn run_case(ctx: &mut Ctx, id: u64) {
         }
         return;
     }
-    let which = if id < 71 { id - 64 } else if id % 6 == 0 { 7 } else { r.below(7) };
+    let which = if id < 71 { id - 64 } else if id % 6 == 0 { 7 } else if id % 6 == 1 { 8 } else { r.below(7) };
     match which {
+        8 => {
+            ctx.eval(Some(r.0 ^ 0x8));
+            match writer_refetch(ctx, &mut r) {
+                Ok(()) => {}
+                Err(f) if f.sig.starts_with("scenario:") || f.sig.starts_with("writer:") || f.sig.starts_with("build:") || f.sig.starts_with("replica-build") => {
+                    ctx.count("scenario_unusable");
+                    ctx.notes.push(format!("scenario unusable: {} {}", f.sig, f.detail.chars().take(120).collect::<String>()));
+                }
+                Err(f) => ctx.violate(f.sig, f.detail, json!({"kind":"writer-refetch"})),
+            }
+        }
         7 => {
             let mut script = vec![];
             ctx.count("shared_core_histories");
